@@ -1,2 +1,7 @@
 import PsVerif.Props.Cipher
+import PsVerif.Props.Ties
+import PsVerif.Props.C01
+import PsVerif.Props.C02
+import PsVerif.Props.C03
+import PsVerif.Props.C11
 import PsVerif.Props.C20
